@@ -521,7 +521,7 @@ def loop_sites(repo: Repo) -> List[Dict[str, Any]]:
     return out
 
 
-def chunk_effects(L: Any, fname: str, hooks: Dict[str, Any], getter: str, setter: str) -> List[Effect]:
+def chunk_effects(L: Any, fname: str, hooks: Dict[str, Any], getter: str, setter: str) -> List[List[Effect]]:
     """Effects of a single-chunk coder from the path engine, in the vocabulary check_chunk reads:
     store s [index, value] / call <setter> [lshift, value] / attr i (cursor writes).  Methods and
     properties of the context object are inlined, the pure shift / mask helpers get their normal
@@ -539,17 +539,40 @@ def chunk_effects(L: Any, fname: str, hooks: Dict[str, Any], getter: str, setter
     names = {f"{ctxn}.i": "i", f"{ctxn}.s": "s"}
     flow = L.flow(None, typed=typed, names=names, inline_props=True, value_hooks=hooks, primitives=(getter, setter), havoc_on=())
     paths = [p_ for p_ in flow.run(fn, {ps[0]: V(ctxn), ps[1]: V(ps[1]), ps[2]: V(ps[2]), ps[3]: V("j"), ps[4]: V("c")}) if p_.done != "raise"]
-    if len(paths) != 1:
-        raise Inconclusive(f"{fname}: {len(paths)} paths (a single straight-line chunk coder is expected)")
+    if not paths or len(paths) > 4:
+        raise Inconclusive(f"{fname}: {len(paths)} paths (a chunk coder with at most 4 straight-line paths is expected)")
+
+    from .normal import sshift as _sshift
+
+    guards: List[Tuple[Any, bool]] = []
+
+    def nonneg(k: Poly) -> bool:
+        # the path's own branch conditions say k >= 0 (guards are normalised to `P < 0` / `P <= 0`)
+        zero = Poly.const(0)
+        for key, truth in guards:
+            if not (isinstance(key, tuple) and len(key) == 3 and key[0] == "cmp" and key[1] in ("<", "<=")):
+                continue
+            if truth and key[2] == zero - k:
+                return True
+            if not truth and key[2] == k:
+                return True
+        return False
 
     def canon(a: Tuple[Any, ...]) -> Optional[Poly]:
         # accessor.bp_get_byte(di, rshift) -> bp_get_byte(rshift)
         if a[0] == "mcall" and a[1] == getter and len(a[2]) >= 2:
             return _call(getter, replace_atoms(a[2][-1], canon))
+        # x >> k on a path whose branch condition gives k >= 0 is the signed shift by k
+        if a[0] == "shr" and len(a) == 3 and nonneg(a[2]):
+            return _sshift(replace_atoms(a[1], canon), a[2])
         return None
 
-    out: List[Effect] = []
-    for e in paths[0].effects:
+    outs: List[List[Effect]] = []
+    for p_ in paths:
+      guards[:] = list(p_.guards)
+      out: List[Effect] = []
+      outs.append(out)
+      for e in p_.effects:
         if e.kind == "store" and e.name in ("s", f"{ctxn}.s"):
             out.append(Effect("store", "s", [replace_atoms(x, canon) for x in e.args], e.op, [], e.node))
         elif e.kind == "call" and e.name == setter:
@@ -558,7 +581,7 @@ def chunk_effects(L: Any, fname: str, hooks: Dict[str, Any], getter: str, setter
             out.append(Effect("attr", "i", [replace_atoms(x, canon) for x in e.args], e.op, [], e.node))
         elif e.kind == "loop":
             out.append(Effect("compound", "loop", [], "", [], e.node))
-    return out
+    return outs
 
 
 @rule("D1", "single-chunk encode/decode of every implementation equals the specification normal form; both cursors advance by the chunk")
@@ -581,8 +604,9 @@ def d1(repo: Repo) -> RuleResult:
                 res.unsure(f"D1: py:{fname}: {e}")
                 continue
             fn = PL.func(fname)
-            check_chunk(res, "py", BP, direction, fname, fn.lineno, eff, "bp_get_byte", "bp_set_byte")
-            _no_cursor_move(res, "py", BP, fname, fn.lineno, eff)
+            for eff1 in eff:  # every path of the chunk coder must be the normal form
+                check_chunk(res, "py", BP, direction, fname, fn.lineno, eff1, "bp_get_byte", "bp_set_byte")
+                _no_cursor_move(res, "py", BP, fname, fn.lineno, eff1)
     except Inconclusive as e:
         res.unsure(f"D1: py runtime: {e}")
     sites = {x["lang"]: x for x in loop_sites(repo)}
@@ -622,8 +646,9 @@ def d1(repo: Repo) -> RuleResult:
             except Inconclusive as e:
                 res.unsure(f"D1: go:{fname}: {e}")
                 continue
-            check_chunk(res, "go", GO_RT, direction, fname, fn.line, eff, "BpGetByte", "BpSetByte")
-            _no_cursor_move(res, "go", GO_RT, fname, fn.line, eff)
+            for eff1 in eff:
+                check_chunk(res, "go", GO_RT, direction, fname, fn.line, eff1, "BpGetByte", "BpSetByte")
+                _no_cursor_move(res, "go", GO_RT, fname, fn.line, eff1)
         res.note("go: " + "; ".join(sorted(set(glw.notes))))
     except Inconclusive as e:
         res.unsure(f"D1: go runtime: {e}")
